@@ -23,9 +23,9 @@ def race_reports(err):
     for blk in re.split(r"={18,}", err):
         if "DATA RACE" not in blk:
             continue
-        m = re.search(r"\n\s+github\.com/Jigsaw-Code/outline-ss-server/([\w/]+)\.([^\s(]+)\(\)\n\s+\S*?/((?:service|net|prometheus|ipinfo)/[\w./]+\.go):(\d+)", blk)
+        m = re.search(r"\n\s+github\.com/Jigsaw-Code/outline-ss-server/(\S+?)\(\)\n\s+\S*?/((?:service|net|prometheus|ipinfo)/[\w./]+\.go):(\d+)", blk)
         if m:
-            out.append(("%s:%s %s" % (m.group(3), m.group(4), m.group(2)), blk.strip()[:3000]))
+            out.append(("%s:%s %s" % (m.group(2), m.group(3), m.group(1)), blk.strip()[:3000]))
     return out
 
 
@@ -37,9 +37,9 @@ def run_part(ctx):
     for i, (clients, rounds) in enumerate(shapes):
         d = ctx.sub("conc%d" % i)
         tf, sf = os.path.join(d, "trace.ndjson"), os.path.join(d, "sum.json")
-        env = vlib.goenv(extra={"GORACE": "halt_on_error=0"})
-        rc, out, err = vlib.run([drv, "conc", "-out", tf, "-summary", sf, "-seed", str(ctx.seed * 17 + i), "-clients", str(clients),
-                                 "-rounds", str(rounds)], env=env, timeout=300)
+        env = U.capped_env({"GORACE": "halt_on_error=0", "GOMEMLIMIT": "3GiB"})
+        rc, out, err = U.run_capped([drv, "conc", "-out", tf, "-summary", sf, "-seed", str(ctx.seed * 17 + i), "-clients", str(clients),
+                                     "-rounds", str(rounds)], env=env, timeout=300)
         reps = race_reports(err)
         ctx.cov["natmap_c19"]["runs"] += 1
         ctx.cov["natmap_c19"]["race_reports"] += len(reps)
